@@ -101,16 +101,61 @@ def param_names(fn: ast.AST) -> List[str]:
 class Inliner:
     """Substitute single-assignment locals by their definition (E1 'inline temporaries')."""
 
-    def __init__(self, fn: ast.AST, max_depth: int = 8):
+    def __init__(self, fn: ast.AST, max_depth: int = 8, skip_mutated: bool = False):
         self.defs = local_defs(fn)
         self.params = set(param_names(fn))
         self.max_depth = max_depth
+        self.mutated = set()       # bare locals that are objects written through / called for effect
+        self.mutated_paths = set()  # (base name, first attribute) written, e.g. ("self", "timepoints")
+        if skip_mutated:
+            # locals written through (x[..] = v, x.a = v, del x[..]) or used as the receiver of a call whose result is
+            # discarded (x.append(v)) are objects with identity: substituting their constructor would duplicate them;
+            # a definition that reads such an object (or a written attribute path) depends on when it is evaluated.
+            def note(x):
+                chain = []
+                b = x
+                while isinstance(b, (ast.Subscript, ast.Attribute)):
+                    chain.append(b)
+                    b = b.value
+                if not isinstance(b, ast.Name):
+                    return
+                inner = chain[-1] if chain else None
+                if isinstance(inner, ast.Attribute):
+                    self.mutated_paths.add((b.id, inner.attr))
+                else:
+                    self.mutated.add(b.id)
+            for n in ast.walk(fn):
+                tg = []
+                if isinstance(n, (ast.Assign, ast.AugAssign, ast.AnnAssign)):
+                    tg = store_targets(n)
+                elif isinstance(n, ast.Delete):
+                    tg = n.targets
+                elif isinstance(n, ast.For):
+                    tg = [n.target]
+                for t in tg:
+                    for x in ast.walk(t):
+                        if isinstance(x, (ast.Subscript, ast.Attribute)) and isinstance(x.ctx, (ast.Store, ast.Del)):
+                            note(x)
+                if isinstance(n, ast.Expr) and isinstance(n.value, ast.Call) and isinstance(n.value.func, ast.Attribute):
+                    rcv = n.value.func.value
+                    if not (isinstance(rcv, ast.Name) and rcv.id in ("self", "cls")):  # self.helper(...) is not taken as a write to every attribute
+                        note(rcv)
+
+    def _time_dependent(self, e: ast.AST) -> bool:
+        for x in ast.walk(e):
+            if isinstance(x, ast.Name) and x.id in self.mutated:
+                return True
+            if isinstance(x, ast.Attribute) and isinstance(x.value, ast.Name) and (x.value.id, x.attr) in self.mutated_paths:
+                return True
+        return False
 
     def single(self, name: str) -> Optional[ast.AST]:
-        if name in self.params:
+        if name in self.params or name in self.mutated:
             return None
         vs = self.defs.get(name)
         if vs and len(vs) == 1 and vs[0] is not None:
+            if (self.mutated or self.mutated_paths) and self._time_dependent(vs[0]):
+                return None  # its value depends on when it is evaluated
             return vs[0]
         return None
 
@@ -205,7 +250,7 @@ class Canon:
 
     def __init__(self, fn: ast.AST):
         self.fn = fn
-        self.inl = Inliner(fn)
+        self.inl = Inliner(fn, skip_mutated=True)
         a = fn.args
         self.pmap = {}
         for i, p in enumerate(a.posonlyargs + a.args):
@@ -353,11 +398,13 @@ class Canon:
 
 def unify(lines: List[str], patterns: List[str], binding: Optional[Dict[str, str]] = None) -> Optional[Dict[str, str]]:
     """Match `patterns` (in any order of lines) against canonical lines. In a pattern `?name` stands for one local (`%k`), bound
-    consistently across patterns; `...` stands for any text. Returns the binding of the first consistent match, or None."""
+    consistently across patterns; `...` stands for any text. Returns the binding of the first consistent match (plus `#i` ->
+    index of the line matched by the i-th pattern, counted over the whole chain of calls sharing a binding), or None."""
     binding = dict(binding or {})
     if not patterns:
         return binding
     pat, rest = patterns[0], patterns[1:]
+    pos = sum(1 for k in binding if k.startswith("#"))
     rx = ""
     names = []
     for tok in re.split(r"(\?[A-Za-z_]\w*|\.\.\.)", pat):
@@ -375,21 +422,22 @@ def unify(lines: List[str], patterns: List[str], binding: Optional[Dict[str, str
         else:
             rx += re.escape(tok)
     cre = re.compile("^" + rx + "$", re.S)
-    for ln in lines:
+    for li, ln in enumerate(lines):
         m = cre.match(ln)
         if not m:
             continue
         b2 = dict(binding)
         b2.update({k: v for k, v in m.groupdict().items() if v is not None})
+        b2[f"#{pos}"] = li  # index of the line matched by the pos-th pattern (source order)
         r = unify(lines, rest, b2)
         if r is not None:
             return r
     return None
 
 
-def canon_lines(fn, inline: bool = True) -> List[str]:
+def canon_lines(fn, inline: bool = True, shared: bool = False) -> List[str]:
     """Rename-insensitive statement texts of a function (see Canon.text / Canon.lines)."""
-    return Canon(fn).lines(inline)
+    return Canon(fn).lines(inline, shared)
 
 
 def canon_src(fn, inline: bool = True) -> str:
@@ -401,3 +449,19 @@ def nested_def(fn, name=None):
         if isinstance(n, ast.FunctionDef) and n is not fn and (name is None or n.name == name):
             return n
     return None
+
+
+def rhs_of(lines: List[str], canon_local: str) -> List[str]:
+    """Right-hand sides of the canonical lines `<local> = ...`."""
+    pre = canon_local + " = "
+    return [ln[len(pre):] for ln in lines if ln.startswith(pre)]
+
+
+def parse_canon(text: str) -> ast.AST:
+    """Parse a canonical text back into an expression: locals %k -> L_k, parameters $x -> P_x."""
+    return ast.parse(re.sub(r"%(\d+)", r"L_\1", re.sub(r"\$(\w+)", r"P_\1", text)), mode="eval").body
+
+
+def canon_name(tok: str) -> str:
+    """%3 -> L_3, $0 -> P_0 (names used by parse_canon)."""
+    return re.sub(r"%(\d+)", r"L_\1", re.sub(r"\$(\w+)", r"P_\1", tok))
